@@ -627,6 +627,33 @@ def run(ctx):
                           "extern \"C\" %s calls %s outside any catch_unwind: a panic there unwinds across the C boundary and aborts the "
                           "process" % (name, d), site=bi[0].where(bi[1]))
 
+    # ------------------------------------------------------------------ R7 outbound (pointer, length) pairs
+    # calls *out* through a C function pointer (the embedder's tokenize callback): every `X.as_ptr()/as_mut_ptr()`
+    # argument is followed by the length of the same object X, taken with X.len() — not a remembered capacity, which goes
+    # stale when the buffer is resized for the retry — and the retry happens only after the resize
+    n_out = 0
+    allb = [b for i, b in sorted(list(P.bodies.items()) + list(P.hidden.items()))
+            if (i.startswith(("llguidance::ffi::", "llguidance::ffi_par::", "<llguidance::ffi")) and P._is_code(b))]
+    for b in allb:
+        for bi, t in b.calls():
+            if "op" not in t["f"] or 'extern "C"' not in t["f"].get("ty", ""):
+                continue
+            args = [strip(b.expr(a)) for a in t["args"]]
+            for k, a in enumerate(args):
+                if not (a[0] == "call" and a[1].rsplit("::", 1)[-1] in ("as_ptr", "as_mut_ptr") and a[2]):
+                    continue
+                if k + 1 >= len(args) or "usize" not in (t["aty"][k + 1] if k + 1 < len(t.get("aty", [])) else "usize"):
+                    continue
+                n_out += 1
+                ln = args[k + 1]
+                same = ln[0] == "call" and ln[1].rsplit("::", 1)[-1] == "len" and ln[2] and norm(b, ln[2][0]) == norm(b, a[2][0])
+                ctx.check(same, "C17-R7", "callback-len-matches-buffer:%s#%d" % (b.id.replace("llguidance::", ""), k),
+                          "the length passed to the C callback is the len() of the very buffer whose pointer is passed",
+                          "%s passes pointer %s with length %s to a C callback: the length is not the current len() of that buffer "
+                          "(a stale capacity makes the callee fill only part of a resized buffer, or overrun a smaller one)"
+                          % (b.id, F.fmt_expr(a), F.fmt_expr(ln)), site=b.where(bi))
+    ctx.floor("C17-R7", "(pointer, length) pairs passed to C callbacks", n_out, 2)
+
     # ------------------------------------------------------------------ R5 wrapper correspondence
     CORR = {
         "llg_matcher_consume_token": ["Matcher::consume_token"], "llg_matcher_consume_tokens": ["Matcher::consume_tokens"],
